@@ -5,10 +5,8 @@
 use crate::num::*;
 use bigint::U256;
 use bignumber::{Decimal256, Uint256};
-use cosmwasm_std::{Addr, CanonicalAddr, Decimal, MessageInfo, Uint128};
-use haloswap::asset::{Asset, AssetInfo, AssetInfoRaw, CreatePairRequirements, PairInfoRaw};
+use cosmwasm_std::{Decimal, Uint128};
 use haloswap::error::ContractError;
-use haloswap::formulas::{calculate_lp_token_amount_to_user, compute_offer_amount, compute_swap};
 use serde_json::{json, Value};
 use std::io::Write;
 use std::panic::{catch_unwind, AssertUnwindSafe};
@@ -37,40 +35,45 @@ pub fn err_class(e: &ContractError) -> String {
 }
 
 // ---------------------------------------------------------------------------------------------
-// calls
+// bindings: the direct calls of the repository's pure functions, one cargo feature each.  When a change to the
+// repository alters one of these signatures the harness is rebuilt without that feature (lib/verif/core.py): the
+// function-level events of that kind are not produced and the property is decided at system level only, instead
+// of the whole check failing to build.
 // ---------------------------------------------------------------------------------------------
-pub fn call_swap(x: u128, y: u128, a: u128, c: u128) -> Value {
-    match guard(|| compute_swap(Uint128::new(x), Uint128::new(y), Uint128::new(a), dec256(c))) {
-        Some((r, s, k)) => json!({"ok": true, "ret": j128(r.u128()), "spread": j128(s.u128()), "comm": j128(k.u128())}),
-        None => json!({"ok": false, "ret": [], "spread": [], "comm": []}),
+pub fn bound(kind: &str) -> bool {
+    match kind {
+        "swap" | "swapmono" => cfg!(feature = "fn_swap"),
+        "reverse" => cfg!(feature = "fn_reverse"),
+        "share" => cfg!(feature = "fn_share"),
+        "maxspread" => cfg!(feature = "fn_maxspread"),
+        "slip" => cfg!(feature = "fn_slip"),
+        _ => true,
     }
 }
 
-pub fn ev_swap(x: u128, y: u128, a: u128, c: u128) -> Value {
-    json!({"k": "swap", "x": j128(x), "y": j128(y), "a": j128(a), "c": j128(c), "r": call_swap(x, y, a, c),
-           "args": [x.to_string(), y.to_string(), a.to_string(), c.to_string()],
-           "h": format!("x={} y={} a={} c={}", x, y, a, c)})
+#[cfg(feature = "fn_swap")]
+fn bind_swap(x: u128, y: u128, a: u128, c: u128) -> Option<(Uint128, Uint128, Uint128)> {
+    guard(|| haloswap::formulas::compute_swap(Uint128::new(x), Uint128::new(y), Uint128::new(a), dec256(c)))
+}
+#[cfg(not(feature = "fn_swap"))]
+fn bind_swap(_x: u128, _y: u128, _a: u128, _c: u128) -> Option<(Uint128, Uint128, Uint128)> {
+    unreachable!("compute_swap is not bound in this build")
 }
 
-pub fn ev_swapmono(x: u128, y: u128, a1: u128, a2: u128, c: u128) -> Value {
-    json!({"k": "swapmono", "x": j128(x), "y": j128(y), "a1": j128(a1), "a2": j128(a2), "c": j128(c),
-           "r1": call_swap(x, y, a1, c), "r2": call_swap(x, y, a2, c),
-           "args": [x.to_string(), y.to_string(), a1.to_string(), a2.to_string(), c.to_string()],
-           "h": format!("x={} y={} a1={} a2={} c={}", x, y, a1, a2, c)})
+#[cfg(feature = "fn_reverse")]
+fn bind_reverse(x: u128, y: u128, b: u128, c: u128) -> Option<(Uint128, Uint128, Uint128)> {
+    guard(|| haloswap::formulas::compute_offer_amount(Uint128::new(x), Uint128::new(y), Uint128::new(b), dec256(c)))
+}
+#[cfg(not(feature = "fn_reverse"))]
+fn bind_reverse(_x: u128, _y: u128, _b: u128, _c: u128) -> Option<(Uint128, Uint128, Uint128)> {
+    unreachable!("compute_offer_amount is not bound in this build")
 }
 
-pub fn ev_reverse(x: u128, y: u128, b: u128, c: u128) -> Value {
-    let r = match guard(|| compute_offer_amount(Uint128::new(x), Uint128::new(y), Uint128::new(b), dec256(c))) {
-        Some((o, s, k)) => json!({"ok": true, "offer": j128(o.u128()), "spread": j128(s.u128()), "comm": j128(k.u128())}),
-        None => json!({"ok": false, "offer": [], "spread": [], "comm": []}),
-    };
-    json!({"k": "reverse", "x": j128(x), "y": j128(y), "b": j128(b), "c": j128(c), "r": r,
-           "args": [x.to_string(), y.to_string(), b.to_string(), c.to_string()],
-           "h": format!("x={} y={} ask={} c={}", x, y, b, c)})
-}
-
+#[cfg(feature = "fn_share")]
 #[allow(clippy::too_many_arguments)]
-pub fn ev_share(s: u128, d0: u128, d1: u128, r0: u128, r1: u128, wl: bool, m0: u128, m1: u128) -> Value {
+fn bind_share(s: u128, d0: u128, d1: u128, r0: u128, r1: u128, wl: bool, m0: u128, m1: u128) -> Option<Result<Uint128, ContractError>> {
+    use cosmwasm_std::{Addr, CanonicalAddr, MessageInfo};
+    use haloswap::asset::{Asset, AssetInfo, AssetInfoRaw, CreatePairRequirements, PairInfoRaw};
     let sender = Addr::unchecked("provider");
     let info = MessageInfo { sender: sender.clone(), funds: vec![] };
     let pair = PairInfoRaw {
@@ -92,9 +95,88 @@ pub fn ev_share(s: u128, d0: u128, d1: u128, r0: u128, r1: u128, wl: bool, m0: u
         Asset { info: AssetInfo::NativeToken { denom: "ua".into() }, amount: Uint128::new(r0) },
         Asset { info: AssetInfo::NativeToken { denom: "ub".into() }, amount: Uint128::new(r1) },
     ];
-    let res = guard(|| {
-        calculate_lp_token_amount_to_user(&info, &pair, Uint128::new(s), [Uint128::new(d0), Uint128::new(d1)], pools)
-    });
+    guard(|| {
+        haloswap::formulas::calculate_lp_token_amount_to_user(&info, &pair, Uint128::new(s), [Uint128::new(d0), Uint128::new(d1)], pools)
+    })
+}
+#[cfg(not(feature = "fn_share"))]
+#[allow(clippy::too_many_arguments)]
+fn bind_share(_s: u128, _d0: u128, _d1: u128, _r0: u128, _r1: u128, _wl: bool, _m0: u128, _m1: u128) -> Option<Result<Uint128, ContractError>> {
+    unreachable!("calculate_lp_token_amount_to_user is not bound in this build")
+}
+
+#[cfg(feature = "fn_maxspread")]
+#[allow(clippy::too_many_arguments)]
+fn bind_maxspread(bp: Option<u128>, ms: Option<u128>, offer: u128, ret: u128, spread: u128, od: u8, rd: u8) -> Option<Result<(), ContractError>> {
+    use haloswap::asset::{Asset, AssetInfo};
+    guard(|| {
+        halo_pair::assert::assert_max_spread(
+            bp.map(dec128),
+            ms.map(dec128),
+            Asset { info: AssetInfo::NativeToken { denom: "ua".into() }, amount: Uint128::new(offer) },
+            Asset { info: AssetInfo::NativeToken { denom: "ub".into() }, amount: Uint128::new(ret) },
+            Uint128::new(spread),
+            od,
+            rd,
+        )
+    })
+}
+#[cfg(not(feature = "fn_maxspread"))]
+#[allow(clippy::too_many_arguments)]
+fn bind_maxspread(_bp: Option<u128>, _ms: Option<u128>, _offer: u128, _ret: u128, _spread: u128, _od: u8, _rd: u8) -> Option<Result<(), ContractError>> {
+    unreachable!("assert_max_spread is not bound in this build")
+}
+
+#[cfg(feature = "fn_slip")]
+fn bind_slip(t: Option<u128>, d0: u128, d1: u128, r0: u128, r1: u128) -> Option<Result<(), ContractError>> {
+    use haloswap::asset::{Asset, AssetInfo};
+    let pools = [
+        Asset { info: AssetInfo::NativeToken { denom: "ua".into() }, amount: Uint128::new(r0) },
+        Asset { info: AssetInfo::NativeToken { denom: "ub".into() }, amount: Uint128::new(r1) },
+    ];
+    guard(|| halo_pair::assert::assert_slippage_tolerance(&t.map(dec128), &[Uint128::new(d0), Uint128::new(d1)], &pools))
+}
+#[cfg(not(feature = "fn_slip"))]
+fn bind_slip(_t: Option<u128>, _d0: u128, _d1: u128, _r0: u128, _r1: u128) -> Option<Result<(), ContractError>> {
+    unreachable!("assert_slippage_tolerance is not bound in this build")
+}
+
+// ---------------------------------------------------------------------------------------------
+// calls
+// ---------------------------------------------------------------------------------------------
+pub fn call_swap(x: u128, y: u128, a: u128, c: u128) -> Value {
+    match bind_swap(x, y, a, c) {
+        Some((r, s, k)) => json!({"ok": true, "ret": j128(r.u128()), "spread": j128(s.u128()), "comm": j128(k.u128())}),
+        None => json!({"ok": false, "ret": [], "spread": [], "comm": []}),
+    }
+}
+
+pub fn ev_swap(x: u128, y: u128, a: u128, c: u128) -> Value {
+    json!({"k": "swap", "x": j128(x), "y": j128(y), "a": j128(a), "c": j128(c), "r": call_swap(x, y, a, c),
+           "args": [x.to_string(), y.to_string(), a.to_string(), c.to_string()],
+           "h": format!("x={} y={} a={} c={}", x, y, a, c)})
+}
+
+pub fn ev_swapmono(x: u128, y: u128, a1: u128, a2: u128, c: u128) -> Value {
+    json!({"k": "swapmono", "x": j128(x), "y": j128(y), "a1": j128(a1), "a2": j128(a2), "c": j128(c),
+           "r1": call_swap(x, y, a1, c), "r2": call_swap(x, y, a2, c),
+           "args": [x.to_string(), y.to_string(), a1.to_string(), a2.to_string(), c.to_string()],
+           "h": format!("x={} y={} a1={} a2={} c={}", x, y, a1, a2, c)})
+}
+
+pub fn ev_reverse(x: u128, y: u128, b: u128, c: u128) -> Value {
+    let r = match bind_reverse(x, y, b, c) {
+        Some((o, s, k)) => json!({"ok": true, "offer": j128(o.u128()), "spread": j128(s.u128()), "comm": j128(k.u128())}),
+        None => json!({"ok": false, "offer": [], "spread": [], "comm": []}),
+    };
+    json!({"k": "reverse", "x": j128(x), "y": j128(y), "b": j128(b), "c": j128(c), "r": r,
+           "args": [x.to_string(), y.to_string(), b.to_string(), c.to_string()],
+           "h": format!("x={} y={} ask={} c={}", x, y, b, c)})
+}
+
+#[allow(clippy::too_many_arguments)]
+pub fn ev_share(s: u128, d0: u128, d1: u128, r0: u128, r1: u128, wl: bool, m0: u128, m1: u128) -> Value {
+    let res = bind_share(s, d0, d1, r0, r1, wl, m0, m1);
     let r = match res {
         Some(Ok(v)) => json!({"ok": true, "v": j128(v.u128()), "why": ""}),
         Some(Err(e)) => json!({"ok": false, "v": [], "why": err_class(&e)}),
@@ -119,6 +201,10 @@ fn popt(s: &str) -> Option<u128> {
 
 /// re-execute one recorded call from its decimal arguments (replay files)
 pub fn replay(kind: &str, args: &[String]) -> Value {
+    if !bound(kind) {
+        eprintln!("the code function behind '{}' events is not bound in this build", kind);
+        std::process::exit(2);
+    }
     let p = |i: usize| -> u128 { args[i].parse().expect("u128 argument") };
     match kind {
         "swap" => ev_swap(p(0), p(1), p(2), p(3)),
@@ -153,17 +239,7 @@ fn guard_result(res: Option<Result<(), ContractError>>) -> Value {
 
 #[allow(clippy::too_many_arguments)]
 pub fn ev_maxspread(bp: Option<u128>, ms: Option<u128>, offer: u128, ret: u128, spread: u128, od: u8, rd: u8) -> Value {
-    let res = guard(|| {
-        halo_pair::assert::assert_max_spread(
-            bp.map(dec128),
-            ms.map(dec128),
-            Asset { info: AssetInfo::NativeToken { denom: "ua".into() }, amount: Uint128::new(offer) },
-            Asset { info: AssetInfo::NativeToken { denom: "ub".into() }, amount: Uint128::new(ret) },
-            Uint128::new(spread),
-            od,
-            rd,
-        )
-    });
+    let res = bind_maxspread(bp, ms, offer, ret, spread, od, rd);
     json!({"k": "maxspread", "bp": jopt(bp), "ms": jopt(ms), "offer": j128(offer), "ret": j128(ret),
            "spread": j128(spread), "od": od, "rd": rd, "r": guard_result(res),
            "args": [sopt(bp), sopt(ms), offer.to_string(), ret.to_string(), spread.to_string(), od.to_string(), rd.to_string()],
@@ -171,13 +247,7 @@ pub fn ev_maxspread(bp: Option<u128>, ms: Option<u128>, offer: u128, ret: u128, 
 }
 
 pub fn ev_slip(t: Option<u128>, d0: u128, d1: u128, r0: u128, r1: u128) -> Value {
-    let pools = [
-        Asset { info: AssetInfo::NativeToken { denom: "ua".into() }, amount: Uint128::new(r0) },
-        Asset { info: AssetInfo::NativeToken { denom: "ub".into() }, amount: Uint128::new(r1) },
-    ];
-    let res = guard(|| {
-        halo_pair::assert::assert_slippage_tolerance(&t.map(dec128), &[Uint128::new(d0), Uint128::new(d1)], &pools)
-    });
+    let res = bind_slip(t, d0, d1, r0, r1);
     json!({"k": "slip", "t": jopt(t), "d0": j128(d0), "d1": j128(d1), "r0": j128(r0), "r1": j128(r1),
            "r": guard_result(res),
            "args": [sopt(t), d0.to_string(), d1.to_string(), r0.to_string(), r1.to_string()],
@@ -514,7 +584,7 @@ pub fn run(seed: u64, n: usize, kinds: &[String], out: &mut dyn Write) -> std::i
     for k in kinds.iter() {
         assert!(KNOWN.contains(&k.as_str()), "unknown math event kind {}", k);
     }
-    let want = |k: &str| kinds.is_empty() || kinds.iter().any(|x| x == k);
+    let want = |k: &str| bound(k) && (kinds.is_empty() || kinds.iter().any(|x| x == k));
     let emit = |v: Value, out: &mut dyn Write, count: &mut usize| -> std::io::Result<()> {
         writeln!(out, "{}", v)?;
         *count += 1;
